@@ -39,14 +39,17 @@ BEC2_FIELDS = ["auth_tag", "auth_len", "auth_value", "auth_end"]
 
 def plan(tier, seed):
     n = 96 if tier == "quick" else 640
-    return [{"name": "faults%02d" % i, "spec": {"n": n // NSH, "i": i}} for i in range(NSH)]
+    jobs = [{"name": "faults%02d" % i, "spec": {"n": n // NSH, "i": i}} for i in range(NSH)]
+    # the same sweep with the interpreter in -O mode (assert statements stripped): checks must not live in asserts
+    jobs += [{"name": "faultsO%02d" % i, "optimize": True, "spec": {"n": 2 if tier == "quick" else 10, "i": i, "optimized": True}} for i in range(2 if tier == "quick" else 8)]
+    return jobs
 
 
 def mandatory_bins(tier):
     b = ["flip_in:" + f for f in FIELDS + BEC2_FIELDS]
     b += ["cut_inside_dirsize", "cut_after_signature", "cut_drops_only_trailing_zeros_of_last_payload", "cut_inside_hex_pair", "cut_inside_comments", "cut_removes_only_final_newline",
           "binary_prefix", "text_prefix", "binary_suffix", "text_suffix", "key_bit_flip_bf3", "key_bit_flip_bec2_decryptor", "key_bit_flip_bec2_rewrapped", "bf3", "bec2",
-          "bec2_ecc", "encrypted_component", "zero_components", "three_components", "payload_len_1", "payload_len_16", "payload_len_17", "damage_returns_original_content", "payload_longer_than_1024", "two_identical_payloads", "unchecked_read_of_the_same_file_first"]
+          "bec2_ecc", "encrypted_component", "zero_components", "three_components", "payload_len_1", "payload_len_16", "payload_len_17", "damage_returns_original_content", "payload_longer_than_1024", "two_identical_payloads", "unchecked_read_of_the_same_file_first", "interpreter_in_optimized_mode"]
     return b
 
 
@@ -340,6 +343,12 @@ def run_authentic(ns, ctx, a, rng, full=True):
 def run_shard(spec, ctx):
     ns = load()
     rng = ctx.rng
+    if spec.get("optimized"):
+        import sys
+
+        if sys.flags.optimize < 1:
+            raise RuntimeError("harness: shard meant to run under -O does not")
+        ctx.bin("interpreter_in_optimized_mode")
     for j in range(spec["n"]):
         idx = spec["i"] + NSH * j
         a = make_authentic(ns, rng, idx)
